@@ -26,7 +26,7 @@ ASSUMPTIONS = [
 COMPONENTS = {'real': ['yldprolog.engine evaluate_bounded, query, generated clause code', 'sys.setrecursionlimit / CPython recursion accounting'],
               'stub': ['caller (harness frames of seeded depth)', 'projection functions with raise switches'],
               'oracle': ['self-referential: plain enumeration of the same query under a high limit; sys.getrecursionlimit(); get_value of every (registered) variable']}
-REQUIRED_PROBES = ('answers_known_by_construction_compared', 'nested_bounded_call_from_projection', 'database_at_depth_worlds', 'completeness_checked_after_projection_fault', 'limit_struck_in_search', 'complete_within_limit', 'proj_raise_fired', 'held_by_caller', 'inline_query', 'proj_overflow_or_recursive',
+REQUIRED_PROBES = ('wrapped_in_plain_iterator', 'answers_known_by_construction_compared', 'nested_bounded_call_from_projection', 'database_at_depth_worlds', 'completeness_checked_after_projection_fault', 'limit_struck_in_search', 'complete_within_limit', 'proj_raise_fired', 'held_by_caller', 'inline_query', 'proj_overflow_or_recursive',
                    'initial_limit_below_given_limit')
 
 HIGH_LIMIT = 4000      # limit in force for the reference enumeration and the harness itself
@@ -131,7 +131,7 @@ def gen(seed, tier):
         world['dynamic'] = []
         world['prebind'] = []
         q = world['query']
-    return {'world': world, 'query': q, 'd': rng.choice((0, 7, 23)), 'L0': rng.choice((650, 1000, 3000, ['rel', 60], ['rel', 150])), 'held': rng.random() < 0.6,
+    return {'world': world, 'query': q, 'd': rng.choice((0, 7, 23)), 'L0': rng.choice((650, 1000, 3000, ['rel', 60], ['rel', 150])), 'held': rng.choice((True, True, True, False, False, 'chain', 'islice')),
             'proj': rng.choice(('index', 'index', 'to_python', 'nested')), 'registry': rng.random() < 0.5,
             'limits': 'window', 'proj_faults': 'all'}
 
@@ -289,7 +289,13 @@ def _execute(plan):
             limit = base + offset
             out['limit_vs_L0'] = limit > L0
             try:
-                if held:
+                if held in ('chain', 'islice'):
+                    # the query wrapped in a plain iterator (no close() of its own), passed inline
+                    import itertools
+                    wq = itertools.chain(yp.query(name, qargs)) if held == 'chain' else itertools.islice(yp.query(name, qargs), 1000000)
+                    out['result'] = yp.evaluate_bounded(wq, proj, recursion_limit=limit)
+                    del wq
+                elif held:
                     q = yp.query(name, qargs)
                     out['q'] = q
                     out['result'] = yp.evaluate_bounded(q, proj, recursion_limit=limit)
@@ -459,7 +465,7 @@ def _execute(plan):
         return None
     side_effects = name in ('dret',)      # (its answers are the same every time, but only if every earlier run completed)
     try:
-        log.count('held_by_caller' if held else 'inline_query')
+        log.count('wrapped_in_plain_iterator' if held in ('chain', 'islice') else 'held_by_caller' if held else 'inline_query')
         ref_upto(8)
         v = known_check('before the window')
         if v is not None:
